@@ -712,9 +712,65 @@ def r17_1_positions(ctx):
         leaves.alpha.atom(g, p) for g, p in leaves.guards(x)} for x in lr) \
         and any(isinstance(x.value, ast.ListComp) and 'find_leaves' in norm(x.value)
                 and leaves.alpha.text(x.value.generators[0].iter) == '%s[1]' % rp for x in lr)
+    if not ok:
+        ok = _accumulating_leaf_walk(leaves, rp)
     r.check(ok, 'find_leaves returns [message] for a node without causes and the leaves of all causes otherwise', leaves.key('shape'), leaves.loc(),
             'find_leaves no longer collects exactly the messages of the cause-free nodes')
     r.done()
+
+
+def _accumulating_leaf_walk(leaves: Fn, rp: str) -> bool:
+    """the other spelling of the leaf walk: one accumulator (a parameter that defaults to None and is then made fresh, or a local)
+    receives the message of exactly the cause-free nodes, the walk recurses into every cause handing the accumulator on, and the
+    accumulator is what is returned"""
+    a = leaves.alpha
+    adds = []
+    for c in leaves.walk():
+        if isinstance(c, ast.Call) and isinstance(c.func, ast.Attribute) and c.func.attr in ('append', 'add', 'setdefault') and c.args \
+                and isinstance(c.func.value, ast.Name) and leaves.live(c):
+            adds.append((c.func.value.id, c.args[0], c))
+        elif isinstance(c, ast.Assign) and len(c.targets) == 1 and isinstance(c.targets[0], ast.Subscript) \
+                and isinstance(c.targets[0].value, ast.Name) and leaves.live(c):
+            adds.append((c.targets[0].value.id, c.targets[0].slice, c))
+    if len(adds) != 1:
+        return False
+    acc, what, site = adds[0]
+    if a.text(what) != '%s[0]' % rp:
+        return False
+    if {a.atom(g_, p_) for g_, p_ in leaves.guards(site)} != {('%s[1]' % rp, False)}:
+        return False
+    # the accumulator: fresh when not handed in
+    if acc in leaves.fi.params:
+        d = leaves.fi.node.args
+        pos = d.posonlyargs + d.args
+        dflt = dict(zip([x.arg for x in pos[len(pos) - len(d.defaults):]], d.defaults))
+        if not (acc in dflt and isinstance(dflt[acc], ast.Constant) and dflt[acc].value is None):
+            return False
+        fresh = [st for st in leaves.walk() if isinstance(st, ast.Assign) and len(st.targets) == 1 and isinstance(st.targets[0], ast.Name)
+                 and st.targets[0].id == acc]
+        if len(fresh) != 1 or not (isinstance(fresh[0].value, (ast.Dict, ast.List)) and not getattr(fresh[0].value, 'keys', getattr(fresh[0].value, 'elts', None))
+                                   or (isinstance(fresh[0].value, ast.Call) and call_name(fresh[0].value) in ('dict', 'list', 'OrderedDict')
+                                       and not fresh[0].value.args)):
+            return False
+        if {G.canon_atom(g_, p_) for g_, p_ in leaves.guards(fresh[0])} != {('%s is None' % acc, True)}:
+            return False
+    # recursion into every cause, accumulator handed on
+    recs = [c for c in leaves.walk() if isinstance(c, ast.Call) and call_name(c) == leaves.fi.name and leaves.live(c)]
+    if len(recs) != 1:
+        return False
+    rc = recs[0]
+    los = [lo for lo in enclosing_loops(rc, leaves.node) if isinstance(lo, ast.For)]
+    if len(los) != 1 or a.text(los[0].iter) != '%s[1]' % rp or not rc.args or norm(rc.args[0]) != norm(los[0].target):
+        return False
+    if any(isinstance(x, (ast.Break, ast.Continue, ast.Return)) for st in los[0].body for x in ast.walk(st)):
+        return False
+    handed = [norm(x) for x in rc.args[1:]] + [norm(k.value) for k in rc.keywords]
+    if acc not in handed:
+        return False
+    if any(t != ('%s[1]' % rp, True) for t in {a.atom(g_, p_) for g_, p_ in leaves.guards(rc)}):
+        return False
+    rets = leaves.returns()
+    return bool(rets) and all(x.value is not None and norm(x.value) == acc for x in rets) and not leaves.falls_off_end()
 
 
 def _msg_text(f: Fn, msg: ast.AST, use: Optional[ast.AST] = None) -> str:
